@@ -577,5 +577,24 @@ pub fn respellings(r: &mut Rng, a: &IG) -> Vec<(&'static str, IG)> {
     }
     // keep only spellings that are themselves in the domain (e.g. MultiPoint->GC with duplicate points is not disjoint)
     out.retain(|(_, g)| g.valid());
+    // rings written from their lexicographically least vertex with the closing coordinate repeated ([A, B, C, A, A]): no
+    // point added (repeated coordinates are legal in a valid ring), but the winding pivot now sits on a zero-length segment
+    let respell_ring = |ring: &Vec<IP>| -> Vec<IP> {
+        if ring.len() < 4 {
+            return ring.clone();
+        }
+        let mut v = ring[..ring.len() - 1].to_vec();
+        let least = (0..v.len()).min_by_key(|&i| v[i]).unwrap();
+        v.rotate_left(least);
+        let f = v[0];
+        v.push(f);
+        v.push(f);
+        v
+    };
+    match a {
+        IG::Polygon(rings) if !rings.is_empty() => out.push(("Polygon rings from the least vertex, closing coordinate repeated", IG::Polygon(rings.iter().map(respell_ring).collect()))),
+        IG::MultiPolygon(ms) if !ms.is_empty() => out.push(("MultiPolygon rings from the least vertex, closing coordinate repeated", IG::MultiPolygon(ms.iter().map(|rs| rs.iter().map(respell_ring).collect()).collect()))),
+        _ => {}
+    }
     out
 }
